@@ -1,3 +1,295 @@
 import Usual.Common
-/-! Model driver for C09 (stub: not built yet). -/
-def main : IO Unit := IO.println "stub"
+import Usual.C09.World
+/-! Model driver for C09 (allocators, safe_mul): same op lines as harness/C09/h.c. -/
+open Usual Usual.C09
+
+namespace C09Drv
+
+def num (s : String) : Option Nat := s.toNat?
+
+def fmtAddr (a : Nat) : String := s!"R{a / regionSpan - 1}+{a % regionSpan}"
+
+def live (w : World) : String := s!"live={w.regs.length}"
+
+def obsOk (al : Bool) : String := s!"al={if al then 1 else 0} in=1 dj=1 ct=1"
+
+def okParent (w : World) (slot : Nat) : Bool :=
+  match w.slot slot with
+  | some .trk => true
+  | some (.talloc ..) => true
+  | some (.troot ..) => true
+  | some (.tsub ..) => true
+  | some (.pool p _ _) => p.align % 8 == 0
+  | _ => false
+
+def isTree (w : World) (slot : Nat) : Bool :=
+  match w.slot slot with
+  | some (.troot ..) => true
+  | some (.tsub ..) => true
+  | _ => false
+
+def isCx (w : World) (slot : Nat) : Bool :=
+  match w.slot slot with
+  | some .trk => true
+  | some (.talloc ..) => true
+  | some (.troot ..) => true
+  | some (.tsub ..) => true
+  | some (.pool ..) => true
+  | _ => false
+
+def alignArgOk (a : Nat) : Bool := a == 0 || (a < 2 ^ 32 && isPowerOf2 a)
+
+/-- alignment the block must have: the pool's `align`; nothing is requested from the others -/
+def alOf (w : World) (slot : Nat) (q : Nat) : Bool :=
+  match w.slot slot with
+  | some (.pool p _ _) => q % p.align == 0
+  | _ => true
+
+def smWidth (t : String) : Option Nat :=
+  match t with
+  | "u8" => some 8 | "u16" => some 16 | "u32" => some 32 | "uint" => some 32
+  | "u64" => some 64 | "ulong" => some 64 | "size" => some 64
+  | _ => none
+
+def mixStep (h : UInt64) (v : UInt64) : UInt64 := (h ^^^ v) * 0x100000001b3
+
+def smVal (lim mx md a b : Nat) : UInt64 :=
+  match safeMulCore lim mx md a b with
+  | some r => UInt64.ofNat (2 * r + 1)
+  | none => 0
+
+def smRowHash (lim mx md a : Nat) : Nat → Nat → UInt64 → UInt64
+  | 0, _, h => h
+  | n + 1, b, h => smRowHash lim mx md a n (b + 1) (mixStep h (smVal lim mx md a b))
+
+def smRangeHashCore (lim mx md : Nat) (blo bn : Nat) : Nat → Nat → UInt64 → UInt64
+  | 0, _, h => h
+  | n + 1, a, h => smRangeHashCore lim mx md blo bn n (a + 1) (smRowHash lim mx md a bn blo h)
+
+/-- hash of `safeMul w a b` over a rectangle (`safeMul w = safeMulCore` at the constants of `w`) -/
+def smRangeHash (w : Nat) (blo bn an alo : Nat) (h : UInt64) : UInt64 :=
+  smRangeHashCore (1 <<< (w / 2)) (2 ^ w - 1) (2 ^ w) blo bn an alo h
+
+def ip2Hash : Nat → Nat → UInt64 → UInt64
+  | 0, _, h => h
+  | n + 1, x, h => ip2Hash n (x + 1) (mixStep h (if isPowerOf2 x then 1 else 0))
+
+def step (w : World) (line : String) : World × String :=
+  let ws := words line
+  let bad := (w, "bad-op")
+  match ws with
+  | ["#case"] => (World.init, "#case")
+  | ["sizes"] =>
+    (w, s!"sizes ## pool={sizeofPool} seg={poolHdr} tree={sizeofTree} item={treeHdr} slab={sizeofSlab} frag={slabFragHdr} mp={mpHdr} th={tallocHdr}")
+  | ["pool", s, par, ini, al, mis] =>
+    (match num s, num par, num ini, num al, num mis with
+     | some s, some par, some ini, some al, some mis =>
+       if (w.slot s).isSome || !okParent w par || !alignArgOk al then bad else
+       let (w1, pa) := cxAllocW fuelW w par (newPoolReq ini) mis
+       (match newPool ini al pa with
+        | some p => let w2 := w1.setSlot s (.pool p par none); (w2, s!"ok ## {live w2}")
+        | none => (w1, s!"ok ## null {live w1}"))
+     | _, _, _, _, _ => bad)
+  | ["area", s, par, bsz, boff, af, al, mis] =>
+    (match num s, num par, num bsz, num boff, num af, num al, num mis with
+     | some s, some par, some bsz, some boff, some af, some al, some mis =>
+       if (w.slot s).isSome || !okParent w par || !alignArgOk al || af > 1 || boff % 8 != 0
+          || (af == 1 && boff != 0) || bsz + boff == 0 then bad else
+       let (w1, pa) := cxAllocW fuelW w par (boff + bsz) mis
+       (match pa with
+        | none => (w1, s!"ok ## null {live w1}")
+        | some a =>
+          match fromArea (a + boff) bsz (af == 1) al with
+          | some p =>
+            let w2 := w1.setSlot s (.pool p par (if af == 1 then none else some a))
+            (w2, s!"ok ## {live w2}")
+          | none => let w2 := cxFreeW fuelW w1 par a; (w2, s!"ok ## null {live w2}"))
+     | _, _, _, _, _, _, _ => bad)
+  | ["tree", s, par, mis] =>
+    (match num s, num par, num mis with
+     | some s, some par, some mis =>
+       if (w.slot s).isSome || !okParent w par then bad else
+       (match w.treeOf par with
+        | some (r, t, real) =>
+          let (w1, pa) := cxAllocW fuelW w real sizeofTree mis
+          (match pa with
+           | none => (w1, s!"ok ## null {live w1}")
+           | some a =>
+             let w2 := (w1.setSlot r (.troot (t.update (treeAddSub s a) par) real)).setSlot s (.tsub r)
+             (w2, s!"ok ## {live w2}"))
+        | none =>
+          let (w1, pa) := cxAllocW fuelW w par sizeofTree mis
+          (match pa with
+           | none => (w1, s!"ok ## null {live w1}")
+           | some a => let w2 := w1.setSlot s (.troot (.mk s a [] []) par); (w2, s!"ok ## {live w2}")))
+     | _, _, _ => bad)
+  | ["talloc", s, mis] =>
+    (match num s, num mis with
+     | some s, some mis =>
+       if (w.slot s).isSome then bad else
+       let (w1, root) := trkAlloc w tallocHdr mis
+       let (w2, cx) := trkAlloc w1 (16 + tallocHdr) mis
+       let w3 := w2.setSlot s (.talloc root cx [])
+       (w3, s!"ok ## {live w3}")
+     | _, _ => bad)
+  | ["a", s, b, size, mis] =>
+    (match num s, num b, num size, num mis with
+     | some s, some b, some size, some mis =>
+       if !isCx w s || (w.blk b).isSome || size ≥ 2 ^ 64 then bad else
+       let (w1, r) := cxAllocW fuelW w s size mis
+       (match r with
+        | some q => let w2 := w1.setBlk b { slot := s, ptr := q, len := size }
+                    (w2, s!"{obsOk (alOf w2 s q)} ## {fmtAddr q} {live w2}")
+        | none => (w1, s!"{obsOk true} ## null {live w1}"))
+     | _, _, _, _ => bad)
+  | ["r", s, b, size, mis] =>
+    (match num s, num b, num size, num mis with
+     | some s, some b, some size, some mis =>
+       (match w.blk b with
+        | some blk =>
+          if blk.slot != s || !isCx w s || size ≥ 2 ^ 64 then bad else
+          let (w1, r) := cxReallocW fuelW w s blk.ptr size mis
+          (match r with
+           | some q => let w2 := w1.setBlk b { slot := s, ptr := q, len := size }
+                       (w2, s!"{obsOk (alOf w2 s q)} ## {fmtAddr q} {live w2}")
+           | none =>
+             let w2 := if size == 0 then w1.delBlk b else w1
+             (w2, s!"{obsOk true} ## null {live w2}"))
+        | none => bad)
+     | _, _, _, _ => bad)
+  | ["f", s, b] =>
+    (match num s, num b with
+     | some s, some b =>
+       (match w.blk b with
+        | some blk =>
+          if blk.slot != s || !isCx w s then bad else
+          let w1 := (cxFreeW fuelW w s blk.ptr).delBlk b
+          (w1, s!"{obsOk true} ## - {live w1}")
+        | none => bad)
+     | _, _ => bad)
+  | ["d", s] =>
+    (match num s with
+     | some s =>
+       (match w.slot s with
+        | none => bad
+        | some .trk => bad
+        | some _ =>
+          if !w.canDestroy s then bad else
+          let w1 := destroyW w s
+          (w1, s!"{live w1} ct=1 ## -"))
+     | _ => bad)
+  | ["slab", s, par, osz, al, ini, mis] =>
+    (match num s, num par, num osz, num al, num ini, num mis with
+     | some s, some par, some osz, some al, some ini, some mis =>
+       if (w.slot s).isSome || !okParent w par || osz ≥ 2 ^ 32 || al ≥ 2 ^ 32 || ini > 1
+          || !(al < 8 || isPowerOf2 al) then bad else
+       let (w1, pa) := cxAllocW fuelW w par sizeofSlab mis
+       (match slabCreate osz al pa with
+        | some sl => let w2 := w1.setSlot s (.slab sl par osz al); (w2, s!"ok ## {live w2}")
+        | none => (w1, s!"ok ## null {live w1}"))
+     | _, _, _, _, _, _ => bad)
+  | ["sa", s, b, mis] =>
+    (match num s, num b, num mis with
+     | some s, some b, some mis =>
+       (match w.slot s with
+        | some (.slab sl par osz al) =>
+          if (w.blk b).isSome then bad else
+          let (w1, pa) := match slabAllocReq sl with
+            | some req => cxAllocW fuelW w par req mis
+            | none => (w, none)
+          let (sl', r) := slabAlloc sl pa
+          let w2 := w1.setSlot s (.slab sl' par osz al)
+          (match r with
+           | some q =>
+             let w3 := w2.setBlk b { slot := s, ptr := q, len := osz }
+             let req := if al == 16 && par == 0 then 16 else 8
+             (w3, s!"{obsOk (q % req == 0)} ## {fmtAddr q} {live w3}")
+           | none => (w2, s!"{obsOk true} ## null {live w2}"))
+        | _ => bad)
+     | _, _, _ => bad)
+  | ["sf", s, b] =>
+    (match num s, num b with
+     | some s, some b =>
+       (match w.slot s, w.blk b with
+        | some (.slab sl par osz al), some blk =>
+          if blk.slot != s then bad else
+          let w1 := (w.setSlot s (.slab (slabFree sl blk.ptr) par osz al)).delBlk b
+          (w1, s!"{obsOk true} ## - {live w1}")
+        | _, _ => bad)
+     | _, _ => bad)
+  | ["mp", s] =>
+    (match num s with
+     | some s =>
+       if (w.slot s).isSome then bad else
+       let w1 := w.setSlot s (.mp { segs := [] })
+       (w1, s!"ok ## {live w1}")
+     | _ => bad)
+  | ["ma", s, b, size, mis] =>
+    (match num s, num b, num size, num mis with
+     | some s, some b, some size, some mis =>
+       (match w.slot s with
+        | some (.mp m) =>
+          if (w.blk b).isSome || size ≥ 2 ^ 32 then bad else
+          let (w1, pa) := match mpAllocReq m size with
+            | some req => let (w1, a) := trkAlloc w req mis; (w1, some a)
+            | none => (w, none)
+          (match mpAlloc m size pa with
+           | some (m', q) =>
+             let w2 := (w1.setSlot s (.mp m')).setBlk b { slot := s, ptr := q, len := size }
+             (w2, s!"{obsOk (q % 8 == 0)} ## {fmtAddr q} {live w2}")
+           | none => (w1, s!"{obsOk true} ## null {live w1}"))
+        | _ => bad)
+     | _, _, _, _ => bad)
+  | ["sm", t, a, b] =>
+    (match smWidth t, num a, num b with
+     | some wd, some a, some b =>
+       if a ≥ 2 ^ wd || b ≥ 2 ^ wd then bad else
+       (match safeMul wd a b with
+        | some r => (w, s!"1 {r}")
+        | none => (w, "0"))
+     | _, _, _ => bad)
+  | ["smr", t, alo, ahi, blo, bhi] =>
+    (match smWidth t, num alo, num ahi, num blo, num bhi with
+     | some wd, some alo, some ahi, some blo, some bhi =>
+       if ahi > 2 ^ wd || bhi > 2 ^ wd || alo > ahi || blo > bhi then bad else
+       (w, s!"{(smRangeHash wd blo (bhi - blo) (ahi - alo) alo 0xcbf29ce484222325).toNat}")
+     | _, _, _, _, _ => bad)
+  | ["ip2", n] =>
+    (match num n with
+     | some n => if n ≥ 2 ^ 32 then bad else (w, if isPowerOf2 n then "1" else "0")
+     | _ => bad)
+  | ["ip2r", lo, hi] =>
+    (match num lo, num hi with
+     | some lo, some hi =>
+       if hi > 2 ^ 32 || lo > hi then bad else
+       (w, s!"{(ip2Hash (hi - lo) lo 0xcbf29ce484222325).toNat}")
+     | _, _ => bad)
+  | ["ra", c, sz] =>
+    (match num c, num sz with
+     | some c, some sz =>
+       if c ≥ 2 ^ 64 || sz ≥ 2 ^ 64 then bad else
+       (match reallocarrayReq c sz with
+        | some n => (w, s!"req={n}")
+        | none => (w, "null"))
+     | _, _ => bad)
+  | ["ta", e, c] =>
+    (match num e, num c with
+     | some e, some c =>
+       if e ≥ 2 ^ 64 || c ≥ 2 ^ 64 then bad else
+       (match tallocArrayReq e c with
+        | some n => if n > tallocMaxLen then (w, "null") else (w, s!"req={alignUp n 8 + tallocHdr}")
+        | none => (w, "null"))
+     | _, _ => bad)
+  | ["tr", e, c] =>
+    (match num e, num c with
+     | some e, some c =>
+       if e ≥ 2 ^ 64 || c ≥ 2 ^ 64 then bad else
+       (match tallocReallocReq e c with
+        | some n => if n == 0 then (w, "null") else (w, s!"req={alignUp n 8 + tallocHdr}")
+        | none => (w, "null"))
+     | _, _ => bad)
+  | _ => bad
+
+end C09Drv
+
+def main : IO Unit := runDriver World.init C09Drv.step
